@@ -13,6 +13,7 @@ def parseSt : String → Option St
 def showR : R → String
   | .unit => "R unit" | .null => "R null" | .node i id => s!"R node {i} {id}"
   | .skipped => "R skipped" | .crash => "R crash"
+  | .found (some h) => s!"R found {h}" | .found none => "R found -"
 
 def nNames : Nat := 3
 
@@ -81,6 +82,10 @@ def handle (s : State) (line : String) : State × String :=
     | _, _ => (s, "R bad-op")
   | ["clear"] => let (s', r) := step s .clear; (s', showR r)
   | ["deleteall"] => let (s', r) := step s .deleteAll; (s', showR r)
+  | ["peek", i] =>
+    match i.toNat? with
+    | some i => let (s', r) := step s (.lookup i); (s', showR r)
+    | none => (s, "R bad-op")
   | ["dump"] => (s, dump s)
   | [] => (s, "")
   | _ => (s, "R bad-op")
